@@ -60,6 +60,13 @@ CHECKS = {
    note="Native byte order for versions 1/2 is little-endian on this platform. Key types and address/authdata types are compared as sign-extended 16-bit values. Random payload bytes seeded.",
    technique="bounded-exhaustive enumeration of file models on the real parser against an independent format writer",
    engine="enum"),
+ "C16": dict(
+   category="model_checking",
+   text="A configuration model is rendered to krb5.conf text and parsed by the real config.NewFromString: every libdefaults key with every listed spelling (10 boolean spellings x 3 letter cases, 18 duration formats, enctype lists incl. aliases/weak/unknown names, integers at their bounds) under each of 8 layouts (spacing, tabs, comment and blank lines, section order, unknown sections/keys, indented headers), all ordered key pairs; realms with 0-4 servers per kind, with/without port, the final marker at each position, nested blocks of three kinds at each position, windows of 2-4 realms; 12 structurally invalid files must be rejected without panic; ResolveRealm for every hostname of depth <=5 over labels {a,b} (with/without trailing dot) against every subset of an 8-key mapping universe (31,744 cases) versus exact-else-longest-dotted-suffix; GetKDCs/GetKpasswdServers for 1-4 servers under every outcome of the (scripted) random ordering, three consecutive calls each.",
+   design="DESIGN.md 2/C16",
+   note="Not judged: spellings MIT accepts but the property does not list (on/off, mixed-case booleans, trailing comments, commas in enctype lists, dotless parent-domain keys, des3-cbc-sha1 naming). An UnsupportedDirective notice for v4 blocks counts as loaded when the Config is returned.",
+   technique="bounded-exhaustive enumeration of configuration models x layouts and of hostname x mapping-set spaces on the real code against a reference model",
+   engine="enum"),
 }
 
 TODO_REASON = "check not yet built in this revision of /verif (work in progress; see DESIGN.md section 2 for the planned bounded-exhaustive exploration)"
